@@ -2,7 +2,7 @@
 # selftest/run.sh [PROP] : run the must-fail / must-stay-quiet corpus (optionally for one property)
 cd /verif
 fail=0; n=0
-while IFS='|' read -r prop exp mode expr path; do
+while IFS=$'\t' read -r prop exp mode expr path; do
   case "$prop" in \#*|"") continue;; esac
   if [ -n "${1:-}" ] && [ "$1" != "$prop" ]; then continue; fi
   n=$((n+1))
